@@ -3,29 +3,37 @@
 (*   Scheduler.Schedule (pkg/scheduler)  the loop decides, per stage: skip (condition    *)
 (*        false), cancel (a dependency failed), or launch once every dependency is       *)
 (*        satisfied; the stage goroutine calls TaskRunner.Run and publishes Done/Error.  *)
-(*   TaskRunner.Run (pkg/runner)         registers the run, executes the task's commands *)
-(*        one after another through the executor, stops at the first failing command,    *)
-(*        de-registers.                                                                   *)
-(* The modules Scheduler.tla and TaskRun.tla/Cancel.tla describe the two layers on their *)
-(* own; this module composes them at the granularity of the events the verification      *)
-(* tracers record (internal/veriftrace): stage status stores, enter/ret of the stage      *)
-(* goroutine around Run, RunEnter/RunExit of the runner, CmdStart/CmdEnd of the executor.  *)
-(* It states the end-to-end forms of C01, C02, C03 and C06 at COMMAND level: no command   *)
-(* of a stage runs before every command of its dependencies is over; commands of one run  *)
-(* never overlap and stop at the first failure; the final statuses are the reference ones. *)
+(*   TaskRunner.Run (pkg/runner)         registers the run, brings the task's execution  *)
+(*        context up (once per context, concurrent callers wait), runs the context's     *)
+(*        `before`, the task's `before` hook, the task's commands once per variation,    *)
+(*        the task's `after` hook, the context's `after`; stops at the first failure     *)
+(*        (the context's `after` still runs; a failing `after` hook is only logged);     *)
+(*        de-registers.                                                                  *)
+(*   TaskRunner.Finish (cmd/taskctl)     after Schedule returned: `down` of every        *)
+(*        context that was used, once.                                                   *)
+(* The modules Scheduler.tla, TaskRun.tla, Contexts.tla and Cancel.tla describe the      *)
+(* layers on their own; this module composes them at the granularity of the events the   *)
+(* verification tracers record (internal/veriftrace): stage status stores, enter/ret of   *)
+(* the stage goroutine around Run, RunEnter/RunExit of the runner, CmdStart/CmdEnd of the  *)
+(* executor (every hook and command is one executor job).                                 *)
+(* It states the end-to-end forms of C01, C02, C03, C06 and C14 at COMMAND level.         *)
 EXTENDS Naturals, FiniteSets, Sequences, TLC
-CONSTANTS N, MaxCmd
+CONSTANTS N, MaxCmd, MaxVar, NCtx, HookKinds
 Stages == 1..N
+Ctxs == 1..NCtx
 Classes == {"OK", "FAIL", "FAILA", "CFALSE"}
-VARIABLES deps, cls, ncmd, failAt,                       \* configuration
+VARIABLES deps, cls, ncmd, failAt, nvar, ctx, hb, ha, upFails,   \* configuration
           status, gerr, loop,                            \* scheduler: stage statuses, g.error, loop alive
           gpc,                                           \* stage goroutine: none | launched | inrun | back | fin
-          rpc, done, crun, rfail                         \* run: none | entered | exited; commands done; one running; failed
-cfgv == <<deps, cls, ncmd, failAt>>
-vars == <<deps, cls, ncmd, failAt, status, gerr, loop, gpc, rpc, done, crun, rfail>>
+          rpc, pt, role, done, rfail, ran,               \* run: none | entered | exited; progress point; job
+                                                         \*   in execution; commands done; failed; hooks run
+          upst, dn                                       \* context: up no|running|ok|failed; down no|running|done
+cfgv == <<deps, cls, ncmd, failAt, nvar, ctx, hb, ha, upFails>>
+vars == <<deps, cls, ncmd, failAt, nvar, ctx, hb, ha, upFails, status, gerr, loop, gpc, rpc, pt, role, done, rfail, ran, upst, dn>>
 
 Allow(s) == cls[s] = "FAILA"
-Fails(s) == cls[s] \in {"FAIL", "FAILA"}
+Fails(s) == cls[s] \in {"FAIL", "FAILA"}          \* the command at position failAt exits non-zero
+Total(s) == ncmd[s] * nvar[s]
 Sat(d) == status[d] \in {"D", "S"} \/ (status[d] = "E" /\ Allow(d))
 Blocked(d) == (status[d] = "E" /\ ~Allow(d)) \/ status[d] = "C"
 
@@ -33,9 +41,15 @@ Init == /\ deps \in {f \in [Stages -> SUBSET Stages] : \A s \in Stages : \A d \i
         /\ cls \in [Stages -> Classes]
         /\ ncmd \in [Stages -> 1..MaxCmd]
         /\ failAt \in [Stages -> 1..MaxCmd] /\ \A s \in Stages : failAt[s] <= ncmd[s] /\ (~Fails(s) => failAt[s] = 1)
+        /\ nvar \in [Stages -> 1..MaxVar]
+        /\ ctx \in [Stages -> 0..NCtx]
+        /\ hb \in [Stages -> HookKinds] /\ ha \in [Stages -> HookKinds]
+        /\ upFails \in [Ctxs -> BOOLEAN]
         /\ status = [s \in Stages |-> "W"] /\ gerr = FALSE /\ loop = TRUE
         /\ gpc = [s \in Stages |-> "none"] /\ rpc = [s \in Stages |-> "none"]
-        /\ done = [s \in Stages |-> 0] /\ crun = [s \in Stages |-> FALSE] /\ rfail = [s \in Stages |-> FALSE]
+        /\ pt = [s \in Stages |-> "start"] /\ role = [s \in Stages |-> "none"]
+        /\ done = [s \in Stages |-> 0] /\ rfail = [s \in Stages |-> FALSE] /\ ran = [s \in Stages |-> {}]
+        /\ upst = [c \in Ctxs |-> "no"] /\ dn = [c \in Ctxs |-> "no"]
 
 \* --- scheduler layer (one iteration of the loop body for stage s; cf. Scheduler.tla VisitOutcome) ---
 Visit(s) ==
@@ -44,54 +58,108 @@ Visit(s) ==
      ELSE IF \E d \in deps[s] : Blocked(d) THEN status' = [status EXCEPT ![s] = "C"] /\ UNCHANGED gpc
      ELSE /\ \A d \in deps[s] : Sat(d)
           /\ status' = [status EXCEPT ![s] = "R"] /\ gpc' = [gpc EXCEPT ![s] = "launched"]
-  /\ UNCHANGED <<cfgv, gerr, loop, rpc, done, crun, rfail>>
+  /\ UNCHANGED <<cfgv, gerr, loop, rpc, pt, role, done, rfail, ran, upst, dn>>
 \* the stage goroutine calls runStage -> TaskRunner.Run
 StageEnter(s) == /\ gpc[s] = "launched" /\ gpc' = [gpc EXCEPT ![s] = "inrun"]
-                 /\ UNCHANGED <<cfgv, status, gerr, loop, rpc, done, crun, rfail>>
+                 /\ UNCHANGED <<cfgv, status, gerr, loop, rpc, pt, role, done, rfail, ran, upst, dn>>
 \* --- runner layer ---
 RunEnter(s) == /\ gpc[s] = "inrun" /\ rpc[s] = "none" /\ rpc' = [rpc EXCEPT ![s] = "entered"]
-               /\ UNCHANGED <<cfgv, status, gerr, loop, gpc, done, crun, rfail>>
-CmdStart(s) == /\ rpc[s] = "entered" /\ ~crun[s] /\ ~rfail[s] /\ done[s] < ncmd[s]
-               /\ crun' = [crun EXCEPT ![s] = TRUE]
-               /\ UNCHANGED <<cfgv, status, gerr, loop, gpc, rpc, done, rfail>>
-\* the command ends; the failing one (position failAt of a failing task) ends the run
-CmdEnd(s) == /\ crun[s] /\ crun' = [crun EXCEPT ![s] = FALSE]
-             /\ done' = [done EXCEPT ![s] = @ + 1]
-             /\ rfail' = [rfail EXCEPT ![s] = Fails(s) /\ done[s] + 1 = failAt[s]]
-             /\ UNCHANGED <<cfgv, status, gerr, loop, gpc, rpc>>
-RunExit(s) == /\ rpc[s] = "entered" /\ ~crun[s] /\ (rfail[s] \/ done[s] = ncmd[s])
+               /\ UNCHANGED <<cfgv, status, gerr, loop, gpc, pt, role, done, rfail, ran, upst, dn>>
+
+\* The next job of the run of s, as a function of how far it got (runner.go Run, contextForTask):
+\*   "up"  context start-up (only the first run that needs the context executes it; the others wait)
+\*   "cb" / "ca"  the context's before / after     "tb" / "ta"  the task's before / after hook
+\*   "cmd" the next command      "wait"  blocked on another run's up      "exit"  Run returns
+AfterTad(s)     == IF ctx[s] # 0 THEN "ca" ELSE "exit"
+AfterCmds(s)    == IF ha[s] # "none" THEN "ta" ELSE AfterTad(s)
+AfterCb(s)      == IF hb[s] # "none" THEN "tb" ELSE "cmd"
+NextOp(s) ==
+  CASE pt[s] = "start" -> IF ctx[s] = 0 THEN AfterCb(s)
+                          ELSE CASE upst[ctx[s]] = "no" -> "up"
+                                 [] upst[ctx[s]] = "running" -> "wait"
+                                 [] upst[ctx[s]] = "failed" -> "exit"      \* Run returns the start-up error
+                                 [] OTHER -> "cb"
+    [] pt[s] = "cbd" -> AfterCb(s)
+    [] pt[s] = "tbd" -> IF rfail[s] THEN AfterTad(s) ELSE "cmd"
+    [] pt[s] = "cmd" -> IF rfail[s] THEN AfterTad(s) ELSE IF done[s] < Total(s) THEN "cmd" ELSE AfterCmds(s)
+    [] pt[s] = "tad" -> AfterTad(s)
+    [] OTHER -> "exit"
+
+\* the executor starts a job of the run of s (runs of different stages interleave freely)
+CmdStart(s) == /\ rpc[s] = "entered" /\ role[s] = "none" /\ NextOp(s) \notin {"wait", "exit"}
+               /\ role' = [role EXCEPT ![s] = NextOp(s)]
+               /\ upst' = IF NextOp(s) = "up" THEN [upst EXCEPT ![ctx[s]] = "running"] ELSE upst
+               /\ UNCHANGED <<cfgv, status, gerr, loop, gpc, rpc, pt, done, rfail, ran, dn>>
+\* the job ends; a failing one ends the run (the context's after still runs)
+CmdEnd(s) ==
+  /\ role[s] # "none" /\ role' = [role EXCEPT ![s] = "none"]
+  /\ CASE role[s] = "up"  -> /\ upst' = [upst EXCEPT ![ctx[s]] = IF upFails[ctx[s]] THEN "failed" ELSE "ok"]
+                             /\ UNCHANGED <<pt, done, rfail, ran>>
+       [] role[s] = "cb"  -> pt' = [pt EXCEPT ![s] = "cbd"] /\ ran' = [ran EXCEPT ![s] = @ \cup {"cb"}] /\ UNCHANGED <<upst, done, rfail>>
+       [] role[s] = "tb"  -> /\ pt' = [pt EXCEPT ![s] = "tbd"] /\ ran' = [ran EXCEPT ![s] = @ \cup {"tb"}]
+                             /\ rfail' = [rfail EXCEPT ![s] = hb[s] = "fail"] /\ UNCHANGED <<upst, done>>
+       [] role[s] = "cmd" -> /\ pt' = [pt EXCEPT ![s] = "cmd"] /\ done' = [done EXCEPT ![s] = @ + 1]
+                             /\ rfail' = [rfail EXCEPT ![s] = Fails(s) /\ done[s] + 1 = failAt[s]] /\ UNCHANGED <<upst, ran>>
+       [] role[s] = "ta"  -> /\ pt' = [pt EXCEPT ![s] = "tad"] /\ ran' = [ran EXCEPT ![s] = @ \cup {"ta"}]
+                             /\ UNCHANGED <<upst, done, rfail>>       \* a failing after hook is only logged
+       [] OTHER           -> pt' = [pt EXCEPT ![s] = "cad"] /\ ran' = [ran EXCEPT ![s] = @ \cup {"ca"}] /\ UNCHANGED <<upst, done, rfail>>
+  /\ UNCHANGED <<cfgv, status, gerr, loop, gpc, rpc, dn>>
+RunExit(s) == /\ rpc[s] = "entered" /\ role[s] = "none" /\ NextOp(s) = "exit"
               /\ rpc' = [rpc EXCEPT ![s] = "exited"]
-              /\ UNCHANGED <<cfgv, status, gerr, loop, gpc, done, crun, rfail>>
+              /\ rfail' = [rfail EXCEPT ![s] = @ \/ (pt[s] = "start" /\ ctx[s] # 0)]   \* the start-up error
+              /\ UNCHANGED <<cfgv, status, gerr, loop, gpc, pt, role, done, ran, upst, dn>>
 \* --- back in the stage goroutine: Run returned, the outcome is published (two stores for an allowed failure) ---
 StageRet(s) == /\ gpc[s] = "inrun" /\ rpc[s] = "exited" /\ gpc' = [gpc EXCEPT ![s] = "back"]
-               /\ UNCHANGED <<cfgv, status, gerr, loop, rpc, done, crun, rfail>>
+               /\ UNCHANGED <<cfgv, status, gerr, loop, rpc, pt, role, done, rfail, ran, upst, dn>>
 Publish(s) == /\ gpc[s] = "back"
               /\ IF rfail[s] /\ status[s] = "R"
                    THEN /\ status' = [status EXCEPT ![s] = "E"]
                         /\ IF Allow(s) THEN UNCHANGED <<gpc, gerr>> ELSE gpc' = [gpc EXCEPT ![s] = "fin"] /\ gerr' = TRUE
                    ELSE status' = [status EXCEPT ![s] = "D"] /\ gpc' = [gpc EXCEPT ![s] = "fin"] /\ UNCHANGED gerr
-              /\ UNCHANGED <<cfgv, loop, rpc, done, crun, rfail>>
+              /\ UNCHANGED <<cfgv, loop, rpc, pt, role, done, rfail, ran, upst, dn>>
 \* the loop sees every stage terminal and leaves; Schedule returns after wg.Wait
 LoopExit == /\ loop /\ \A s \in Stages : status[s] \notin {"W", "R"} /\ loop' = FALSE
-            /\ UNCHANGED <<cfgv, status, gerr, gpc, rpc, done, crun, rfail>>
-Next == LoopExit \/ \E s \in Stages : Visit(s) \/ StageEnter(s) \/ RunEnter(s) \/ CmdStart(s) \/ CmdEnd(s) \/ RunExit(s) \/ StageRet(s) \/ Publish(s)
+            /\ UNCHANGED <<cfgv, status, gerr, gpc, rpc, pt, role, done, rfail, ran, upst, dn>>
+\* --- TaskRunner.Finish after Schedule returned: down of every context that was used ---
+Returned == ~loop /\ \A s \in Stages : gpc[s] \in {"none", "fin"} /\ status[s] \notin {"W", "R"}
+DownStart(c) == /\ Returned /\ upst[c] # "no" /\ dn[c] = "no" /\ dn' = [dn EXCEPT ![c] = "running"]
+                /\ UNCHANGED <<cfgv, status, gerr, loop, gpc, rpc, pt, role, done, rfail, ran, upst>>
+DownEnd(c) == /\ dn[c] = "running" /\ dn' = [dn EXCEPT ![c] = "done"]
+              /\ UNCHANGED <<cfgv, status, gerr, loop, gpc, rpc, pt, role, done, rfail, ran, upst>>
+Next == \/ LoopExit
+        \/ \E s \in Stages : Visit(s) \/ StageEnter(s) \/ RunEnter(s) \/ CmdStart(s) \/ CmdEnd(s) \/ RunExit(s) \/ StageRet(s) \/ Publish(s)
+        \/ \E c \in Ctxs : DownStart(c) \/ DownEnd(c)
 Spec == Init /\ [][Next]_vars /\ WF_vars(Next)
 
 \* --- end-to-end properties ---
+UpOK(s) == ctx[s] = 0 \/ ~upFails[ctx[s]]
+TaskFails(s) == ~UpOK(s) \/ hb[s] = "fail" \/ Fails(s)          \* not: a failing after hook
 RECURSIVE Exp(_)
 Exp(s) == IF cls[s] = "CFALSE" THEN "S"
           ELSE IF \E d \in deps[s] : Exp(d) \in {"E", "C"} THEN "C"
-          ELSE IF cls[s] = "FAIL" THEN "E" ELSE "D"
-Returned == ~loop /\ \A s \in Stages : gpc[s] \in {"none", "fin"} /\ status[s] \notin {"W", "R"}
-\* C01 at command level: while a command of s runs, every dependency's run is completely over
-CommandsAfterDependencies == \A s \in Stages : (crun[s] \/ rpc[s] = "entered") =>
-                                 \A d \in deps[s] : (rpc[d] = "exited" /\ ~crun[d]) \/ status[d] = "S"
-\* C06: commands of one run never overlap (crun is a flag) and none starts after the failing one
-StopsAtFailure == \A s \in Stages : Fails(s) => done[s] <= failAt[s]
-\* C02 / C03 at the end of the run
+          ELSE IF TaskFails(s) /\ ~Allow(s) THEN "E" ELSE "D"
+Launched(s) == Exp(s) \in {"D", "E"}
+ExpDone(s) == IF ~Launched(s) \/ ~UpOK(s) \/ hb[s] = "fail" THEN 0 ELSE IF Fails(s) THEN failAt[s] ELSE Total(s)
+ExpRan(s) == IF ~Launched(s) \/ ~UpOK(s) THEN {}
+             ELSE (IF ctx[s] # 0 THEN {"cb", "ca"} ELSE {}) \cup (IF hb[s] # "none" THEN {"tb"} ELSE {})
+                  \cup (IF ha[s] # "none" /\ hb[s] # "fail" /\ ~Fails(s) THEN {"ta"} ELSE {})
+AllOver == Returned /\ \A c \in Ctxs : dn[c] \notin {"running"} /\ (upst[c] # "no" => dn[c] = "done")
+Busy(s) == role[s] # "none" \/ rpc[s] = "entered"
+\* C01 at command level: while a job of s runs, every dependency's run is completely over
+CommandsAfterDependencies == \A s \in Stages : Busy(s) =>
+                                 \A d \in deps[s] : (rpc[d] = "exited" /\ role[d] = "none") \/ status[d] = "S"
+\* C06: jobs of one run never overlap (role is one value) and none starts after the failing one
+StopsAtFailure == \A s \in Stages : /\ (Fails(s) => done[s] <= failAt[s])
+                                    /\ (hb[s] = "fail" /\ "tb" \in ran[s] => done[s] = 0 /\ "ta" \notin ran[s])
+\* C14: a context is up before anything of a task in it runs; down only after everything is over, once
+UpBeforeUse == \A s \in Stages : (role[s] \notin {"none", "up"} /\ ctx[s] # 0) => upst[ctx[s]] = "ok"
+DownAfterAll == \A c \in Ctxs : dn[c] # "no" => Returned /\ \A s \in Stages : rpc[s] # "entered"
+OneUpAtATime == \A c \in Ctxs : Cardinality({s \in Stages : role[s] = "up" /\ ctx[s] = c}) <= 1
+\* C02 / C03 / C14 at the end of the run
 FinalOK == Returned => /\ \A s \in Stages : status[s] = Exp(s)
                        /\ gerr = (\E s \in Stages : Exp(s) = "E")
-                       /\ \A s \in Stages : done[s] = (IF Exp(s) \notin {"D", "E"} THEN 0 ELSE IF Fails(s) THEN failAt[s] ELSE ncmd[s])
+                       /\ \A s \in Stages : done[s] = ExpDone(s) /\ ran[s] = ExpRan(s)
+                       /\ \A c \in Ctxs : (upst[c] # "no") = (\E s \in Stages : Launched(s) /\ ctx[s] = c)
 RunOnlyWhileStageRunning == \A s \in Stages : rpc[s] = "entered" => gpc[s] = "inrun" /\ status[s] = "R"
-Terminates == <>Returned
+Terminates == <>AllOver
 =======================================================================
